@@ -201,6 +201,30 @@ func EngGenSpec(r *lib.Rng, o EngOpts) (*Spec, []string) {
 		s.Pkgs[pn].Targets = append(s.Pkgs[pn].Targets, t)
 		order = append(order, "//"+pn+":"+t.Name)
 	}
+	if o.OutDirs { // make sure the history has an output_dirs target to edit
+		has := false
+		for _, l := range order {
+			has = has || s.Target(l).Cmd.Op == "outdir"
+		}
+		for _, pn := range pkgs {
+			if has {
+				break
+			}
+			files := localFiles(s, pn)
+			for n := min(2, len(files)); n >= 1 && !has; n-- {
+				for off := 0; off+n <= len(files) && !has; off++ {
+					t := &Target{Name: "od", Kind: "genrule", Srcs: append([]string{}, files[off:off+n]...), Outs: []string{"od.marker"}, OutDirs: []string{"_o"}, Cmd: Cmd{Op: "outdir"}}
+					c := s.Clone()
+					c.Pkgs[pn].Targets = append(c.Pkgs[pn].Targets, t)
+					if engClaimsOK(c) {
+						s.Pkgs[pn].Targets = append(s.Pkgs[pn].Targets, t)
+						order = append(order, "//"+pn+":od")
+						has = true
+					}
+				}
+			}
+		}
+	}
 	return s, order
 }
 
@@ -471,18 +495,11 @@ func EngBuild(repo *Repo, base string, spec *Spec, order, req []string, index in
 	if res.Exit != 0 {
 		st.Stderr = tail(res.Stderr+res.Stdout, 1200)
 	}
-	if o.RuleHashes && res.Exit == 0 {
-		// a third invocation; the targets are up to date, so it builds nothing and prints the hashes
-		hres := repo.Run(90*time.Second, append([]string{"hash", "--detailed"}, req...)...)
-		if hres.Exit == 0 && len(hres.Executed) == 0 {
-			st.RuleHash = parseRuleHashes(hres.Stdout)
-		}
-	}
 	if o.CleanRef {
 		js, _ := json.Marshal(spec)
 		key := string(js) + "|" + strings.Join(req, " ")
 		if m, ok := o.cleanMemo[key]; ok {
-			st.CleanExit, st.CleanExec, st.Clean, st.CleanStr = m.CleanExit, m.CleanExec, m.Clean, m.CleanStr
+			st.CleanExit, st.CleanExec, st.Clean, st.CleanStr, st.RuleHash = m.CleanExit, m.CleanExec, m.Clean, m.CleanStr, m.RuleHash
 			return st
 		}
 		clean := repo.CleanCopy(base, "clean", spec)
@@ -493,6 +510,14 @@ func EngBuild(repo *Repo, base string, spec *Spec, order, req []string, index in
 		st.CleanStr = map[string]string{}
 		for l, m := range st.Clean {
 			st.CleanStr[l] = outStr(m)
+		}
+		if o.RuleHashes && cres.Exit == 0 {
+			// in the CLEAN copy (same labels and command texts, hence the same rule hashes): `plz hash` in the
+			// incremental repository would store path hashes on the outputs and change what later builds do
+			hres := clean.Run(90*time.Second, append([]string{"hash", "--detailed"}, req...)...)
+			if hres.Exit == 0 {
+				st.RuleHash = parseRuleHashes(hres.Stdout)
+			}
 		}
 		if o.cleanMemo != nil && !cres.TimedOut {
 			o.cleanMemo[key] = st
